@@ -123,7 +123,17 @@ func runGC[K any, V any](newTree func() Tree[K, V], newKey func() K, eq func(a, 
 func gcByKind[V any](kind int, vv gcVal[V]) {
 	switch kind {
 	case 0:
-		runGC(func() Tree[[]byte, V] { return NewAlphaSortedTree[[]byte, V]() }, func() []byte { return vpBytes(1) }, vpEqBytes, vpLessBytes, vv, false)
+		stem := 0
+		if vpNParams() > 3 {
+			stem = vpParam(3) // long shared key stem: compressed paths far beyond the inline limit
+		}
+		runGC(func() Tree[[]byte, V] { return NewAlphaSortedTree[[]byte, V]() }, func() []byte {
+			b := make([]byte, 0, stem+1)
+			for i := 0; i < stem; i++ {
+				b = append(b, byte('A'+i%26))
+			}
+			return append(b, vpBytes(1)...)
+		}, vpEqBytes, vpLessBytes, vv, stem > 0)
 	case 1:
 		runGC(func() Tree[string, V] { return NewAlphaSortedTree[string, V]() }, func() string { return vpString(1) },
 			func(a, b string) bool { return a == b }, func(a, b string) bool { return a < b }, vv, false)
